@@ -35,6 +35,11 @@ impl Ops {
     pub fn entry<'a, P: Into<PathBuf>>(&'a mut self, path: P) -> Entry<'a> {
         Entry(self.ops.entry(path.into()))
     }
+
+    #[cfg(feature = "verif")]
+    pub fn contains(&self, path: &PathBuf) -> bool {
+        self.ops.contains_key(path)
+    }
 }
 
 pub struct Entry<'a>(btree_map::Entry<'a, PathBuf, Rc<OpsMap>>);
